@@ -140,6 +140,17 @@ impl<'a, 'b> HeaderWriter<'a, 'b> {
     }
 
     pub(crate) fn write_attribute(&mut self, attr: &OwnedAttribute) -> Result<(), AttrWriteError> {
+        // all or nothing: a value that does not fit (or cannot be encoded) must not leave
+        // its object header and type / length octets behind
+        let start = self.cursor.position();
+        let res = self.write_attribute_inner(attr);
+        if res.is_err() {
+            self.cursor.seek_to(start)?;
+        }
+        res
+    }
+
+    fn write_attribute_inner(&mut self, attr: &OwnedAttribute) -> Result<(), AttrWriteError> {
         let variation = Variation::Group0(attr.variation);
         variation.write(self.cursor)?;
         QualifierCode::Range8.write(self.cursor)?;
